@@ -86,10 +86,11 @@ structure Inv (A0 A1 L : ℕ) (s : St) (ag : ℤ) : Prop where
   p2 : 1 ≤ s.u2
   p3 : 1 ≤ s.u3
   p1 : 1 ≤ s.u1 ∨ s.v0 = 0
+  r01 : (s.u0 ≤ s.u1 ∧ s.v0 ≤ s.v1) ∨ s.u1 = 0
 
 theorem inv_step (A0 A1 L : ℕ) (hL : 0 < L) (s : St) (ag : ℤ) (h : Inv A0 A1 L s ag) (hc : L ≤ s.a3) :
     Inv A0 A1 L (halfStep s) s.a1 := by
-  obtain ⟨e0, e1, e2, e3, d01, d12, d23, og, o1, o2, lim, gu2, gv2, gu3, gv3, p2, p3, p1⟩ := h
+  obtain ⟨e0, e1, e2, e3, d01, d12, d23, og, o1, o2, lim, gu2, gv2, gu3, gv3, p2, p3, p1, r01⟩ := h
   have ha3 : 0 < s.a3 := by omega
   obtain ⟨q, hq⟩ : ∃ q, q = s.a2 / s.a3 := ⟨_, rfl⟩
   have hq1 : 1 ≤ q := by rw [hq]; exact Nat.div_pos (le_of_lt o2) ha3
@@ -119,6 +120,7 @@ theorem inv_step (A0 A1 L : ℕ) (hL : 0 < L) (s : St) (ag : ℤ) (h : Inv A0 A1
   · exact p3
   · omega
   · left; exact p2
+  · left; exact ⟨by omega, by omega⟩
 
 theorem inv_loop (A0 A1 L : ℕ) (hL : 0 < L) (f : ℕ) (s : St) (ag : ℤ) (h : Inv A0 A1 L s ag) :
     ∃ ag', Inv A0 A1 L (loop L f s) ag' := by
@@ -151,10 +153,11 @@ theorem det_pos (c e : ℤ) {a b : ℤ} (ha : 0 ≤ a) (hb : 0 ≤ b) (h : c * b
 set_option maxHeartbeats 1000000 in
 theorem sel_valid (A0 A1 L : ℕ) (s : St) (ag : ℤ) (h : Inv A0 A1 L s ag)
     (hA : A0 < L * L) (hAle : A1 ≤ A0) :
-    select s = ident ∨ (Valid A0 A1 (select s) ∧ 1 ≤ (select s).2.2.1) := by
-  obtain ⟨e0, e1, e2, e3, d01, d12, d23, og, o1, o2, lim, gu2, gv2, gu3, gv3, p2, p3, p1⟩ := h
+    select s = ident ∨ (Valid A0 A1 (select s) ∧ 1 ≤ (select s).2.2.1
+      ∧ (select s).1 ≤ (select s).2.2.1 ∧ (select s).2.1 ≤ (select s).2.2.2.1) := by
+  obtain ⟨e0, e1, e2, e3, d01, d12, d23, og, o1, o2, lim, gu2, gv2, gu3, gv3, p2, p3, p1, r01⟩ := h
   obtain ⟨a1, a2, a3, u0, v0, u1, v1, u2, v2, u3, v3, even⟩ := s
-  simp only at e0 e1 e2 e3 d01 d12 d23 og o1 o2 lim gu2 gv2 gu3 gv3 p2 p3 p1
+  simp only at e0 e1 e2 e3 d01 d12 d23 og o1 o2 lim gu2 gv2 gu3 gv3 p2 p3 p1 r01
   have hss : sgn even * sgn even = 1 := by cases even <;> simp [sgn]
   -- cofactor bounds from the Bezout-type identities
   have hb1 : (v2 : ℤ) * a1 + v1 * a2 = A0 := by
@@ -200,7 +203,7 @@ theorem sel_valid (A0 A1 L : ℕ) (s : St) (ag : ℤ) (h : Inv A0 A1 L s ag)
     · next t1 =>
       split
       · next t2 =>
-        right; refine ⟨⟨by simp only [sgn]; push_cast; linear_combination d23, ?_⟩, p3⟩
+        right; refine ⟨⟨by simp only [sgn]; push_cast; linear_combination d23, ?_⟩, p3, (by first | omega | (dsimp only; omega)), (by first | omega | (dsimp only; omega))⟩
         intro K α β hK hα0 hα hβ0 hβ
         simp only [Bool.false_eq_true, if_false]
         have ht2 : (v3 : ℤ) ≤ a3 := by exact_mod_cast t2.1
@@ -208,7 +211,7 @@ theorem sel_valid (A0 A1 L : ℕ) (s : St) (ag : ℤ) (h : Inv A0 A1 L s ag)
         exact site K β α A1 A0 v2 u2 v3 u3 a2 a3 hK hβ0 hβ hα0 hα (by positivity) (by positivity) (by positivity)
           (by positivity) (by rw [e2]; ring) (by rw [e3]; ring) ht2 ht3
           (det_pos (v2 : ℤ) (v3 : ℤ) (by positivity) (by positivity) (by first | exact Or.inl (by linear_combination d23) | exact Or.inl (by linear_combination -d23) | exact Or.inr (by linear_combination d23) | exact Or.inr (by linear_combination -d23)))
-      · right; refine ⟨⟨by simp only [sgn]; push_cast; linear_combination d12, ?_⟩, p2⟩
+      · right; refine ⟨⟨by simp only [sgn]; push_cast; linear_combination d12, ?_⟩, p2, (by first | omega | (dsimp only; omega)), (by first | omega | (dsimp only; omega))⟩
         intro K α β hK hα0 hα hβ0 hβ
         simp only [if_true]
         have ht2 : (u2 : ℤ) ≤ a2 := by exact_mod_cast (by omega : u2 ≤ a2)
@@ -218,7 +221,7 @@ theorem sel_valid (A0 A1 L : ℕ) (s : St) (ag : ℤ) (h : Inv A0 A1 L s ag)
           (det_pos (u1 : ℤ) (u2 : ℤ) (by positivity) (by positivity) (by first | exact Or.inl (by linear_combination d12) | exact Or.inl (by linear_combination -d12) | exact Or.inr (by linear_combination d12) | exact Or.inr (by linear_combination -d12)))
     · rcases Nat.eq_zero_or_pos u1 with hu1 | hu1
       · exact Or.inl (hid hu1)
-      right; refine ⟨⟨by simp only [sgn]; push_cast; linear_combination d01, ?_⟩, hu1⟩
+      right; refine ⟨⟨by simp only [sgn]; push_cast; linear_combination d01, ?_⟩, hu1, (by first | omega | (dsimp only; omega)), (by first | omega | (dsimp only; omega))⟩
       intro K α β hK hα0 hα hβ0 hβ
       simp only [Bool.false_eq_true, if_false]
       have ht2 : (v1 : ℤ) ≤ a1 := by exact_mod_cast (by omega : v1 ≤ a1)
@@ -235,7 +238,7 @@ theorem sel_valid (A0 A1 L : ℕ) (s : St) (ag : ℤ) (h : Inv A0 A1 L s ag)
     · next t1 =>
       split
       · next t2 =>
-        right; refine ⟨⟨by simp only [sgn]; push_cast; linear_combination d23, ?_⟩, p3⟩
+        right; refine ⟨⟨by simp only [sgn]; push_cast; linear_combination d23, ?_⟩, p3, (by first | omega | (dsimp only; omega)), (by first | omega | (dsimp only; omega))⟩
         intro K α β hK hα0 hα hβ0 hβ
         simp only [if_true]
         have ht2 : (u3 : ℤ) ≤ a3 := by exact_mod_cast t2.1
@@ -243,7 +246,7 @@ theorem sel_valid (A0 A1 L : ℕ) (s : St) (ag : ℤ) (h : Inv A0 A1 L s ag)
         exact site K α β A0 A1 u2 v2 u3 v3 a2 a3 hK hα0 hα hβ0 hβ (by positivity) (by positivity) (by positivity)
           (by positivity) (by rw [e2]; ring) (by rw [e3]; ring) ht2 ht3
           (det_pos (u2 : ℤ) (u3 : ℤ) (by positivity) (by positivity) (by first | exact Or.inl (by linear_combination d23) | exact Or.inl (by linear_combination -d23) | exact Or.inr (by linear_combination d23) | exact Or.inr (by linear_combination -d23)))
-      · right; refine ⟨⟨by simp only [sgn]; push_cast; linear_combination d12, ?_⟩, p2⟩
+      · right; refine ⟨⟨by simp only [sgn]; push_cast; linear_combination d12, ?_⟩, p2, (by first | omega | (dsimp only; omega)), (by first | omega | (dsimp only; omega))⟩
         intro K α β hK hα0 hα hβ0 hβ
         simp only [Bool.false_eq_true, if_false]
         have ht2 : (v2 : ℤ) ≤ a2 := by exact_mod_cast (by omega : v2 ≤ a2)
@@ -253,7 +256,7 @@ theorem sel_valid (A0 A1 L : ℕ) (s : St) (ag : ℤ) (h : Inv A0 A1 L s ag)
           (det_pos (v1 : ℤ) (v2 : ℤ) (by positivity) (by positivity) (by first | exact Or.inl (by linear_combination d12) | exact Or.inl (by linear_combination -d12) | exact Or.inr (by linear_combination d12) | exact Or.inr (by linear_combination -d12)))
     · rcases Nat.eq_zero_or_pos u1 with hu1 | hu1
       · exact Or.inl (hid hu1)
-      right; refine ⟨⟨by simp only [sgn]; push_cast; linear_combination d01, ?_⟩, hu1⟩
+      right; refine ⟨⟨by simp only [sgn]; push_cast; linear_combination d01, ?_⟩, hu1, (by first | omega | (dsimp only; omega)), (by first | omega | (dsimp only; omega))⟩
       intro K α β hK hα0 hα hβ0 hβ
       simp only [if_true]
       have ht2 : (u1 : ℤ) ≤ a1 := by exact_mod_cast (by omega : u1 ≤ a1)
@@ -282,7 +285,9 @@ def prefixM (L fuel a0 a1 : ℕ) : Mat :=
 
 set_option maxHeartbeats 1000000 in
 theorem prefix_valid (L fuel a0 a1 : ℕ) (hL : 0 < L) (hle : a1 ≤ a0) (hA : a0 < L * L) :
-    prefixM L fuel a0 a1 = ident ∨ (Valid a0 a1 (prefixM L fuel a0 a1) ∧ 1 ≤ (prefixM L fuel a0 a1).2.2.1) := by
+    prefixM L fuel a0 a1 = ident ∨ (Valid a0 a1 (prefixM L fuel a0 a1) ∧ 1 ≤ (prefixM L fuel a0 a1).2.2.1
+      ∧ (prefixM L fuel a0 a1).1 ≤ (prefixM L fuel a0 a1).2.2.1
+      ∧ (prefixM L fuel a0 a1).2.1 ≤ (prefixM L fuel a0 a1).2.2.2.1) := by
   unfold prefixM
   split
   · left; rfl
@@ -302,7 +307,7 @@ theorem prefix_valid (L fuel a0 a1 : ℕ) (hL : 0 < L) (hle : a1 ≤ a0) (hA : a
     · split
       · next t =>
         right
-        refine ⟨⟨by simp [sgn], ?_⟩, le_refl _⟩
+        refine ⟨⟨by simp [sgn], ?_⟩, le_refl _, by omega, hq1⟩
         intro K α β hK hα0 hα hβ0 hβ
         simp only [Bool.false_eq_true, if_false]
         have c12 : ((a1 - a2 : ℕ) : ℤ) = (a1 : ℤ) - a2 := Nat.cast_sub (by omega)
@@ -347,6 +352,7 @@ theorem prefix_valid (L fuel a0 a1 : ℕ) (hL : 0 < L) (hle : a1 ≤ a0) (hA : a
         · omega
         · omega
         · omega
+        · right; trivial
         · right; trivial
       obtain ⟨ag', hfin⟩ := inv_loop a0 a1 L hL fuel _ _ hinit
       simp only [Nat.mul_one] at hfin ⊢
